@@ -23,10 +23,15 @@ def catalogue():
 
 def _scratch_copy():
     d = tempfile.mkdtemp(prefix="rdbself.")
-    for name in ("src", "examples"):
-        shutil.copytree(os.path.join(facts.REPO, name), os.path.join(d, name))
-    for name in ("Cargo.toml", "Cargo.lock"):
-        shutil.copy(os.path.join(facts.REPO, name), os.path.join(d, name))
+    # tools/seed_confirm.py applies a seeded change to /repo itself for the duration of its check run and holds this lock
+    # meanwhile: never copy a tree that has such a change applied
+    import fcntl
+    with open("/tmp/.seed_confirm_repo.lock", "w") as lf:
+        fcntl.flock(lf, fcntl.LOCK_EX)
+        for name in ("src", "examples"):
+            shutil.copytree(os.path.join(facts.REPO, name), os.path.join(d, name))
+        for name in ("Cargo.toml", "Cargo.lock"):
+            shutil.copy(os.path.join(facts.REPO, name), os.path.join(d, name))
     return d
 
 
